@@ -64,8 +64,10 @@ Proof. exact altroot_create_dir_all_concurrent. Qed.
     included - and EVERY schedule: a create_dir_all that has returned has returned Ok, and each
     directory it asked for is then visible through the overlay (a directory of the write layer, or
     one of the lower layer that is not marked as deleted).  Hypotheses: the write layer is a
-    well-formed tree; on the requested prefixes neither layer has a file (the property's
-    precondition), names are non-empty and the first is not the bookkeeping directory, and the marker
+    well-formed tree; on the requested prefixes no file is VISIBLE (the property's precondition): the
+    write layer has none, and a file of the lower layer is hidden by its marker or shadowed by a
+    write-layer directory (an entry removed through the overlay earlier - the stale file behind the
+    marker must never surface while the threads re-create the path); names are non-empty and the first is not the bookkeeping directory, and the marker
     path of a requested prefix holds nothing but a marker (no directory: see finding D28).
     This is the statement that was FALSE before repair a7ee48b, which it was written to settle:
     with a marker present, a thread's parent check could see the marker of a directory another thread
@@ -75,7 +77,9 @@ Theorem C17_overlay_all_succeed :
          (Ps : list (list (list N))) (sch : list nat),
   wf s0 ->
   (forall P q, P ∈ Ps -> q ∈ prefixes P ->
-     not_file s0 q /\ not_file s1 q /\ Forall (fun n => n <> []) q /\ head q <> Some whiteout_name /\
+     not_file s0 q /\
+     (forall f, s1 !! q = Some f -> f_type f = File -> is_Some (s0 !! whiteout_path (v0, []) q) \/ is_dir s0 q) /\
+     Forall (fun n => n <> []) q /\ head q <> Some whiteout_name /\
      (forall f, s0 !! whiteout_path (v0, []) q = Some f -> f_type f = File)) ->
   exists s0', fst (prun sch (mstore2 s0 s1 hs lg ft) (map (fun P => vp_create_dir_all ovl P) Ps)) = mstore2 s0' s1 hs lg ft /\
     wf s0' /\
@@ -120,7 +124,10 @@ Proof. vm_compute. split; reflexivity. Qed.
 Example C17_overlay_hypotheses :
   wf c17_upper /\
   (forall P q, P ∈ [[[97%N]; [120%N]]; [[97%N]; [121%N]]] -> q ∈ prefixes P ->
-     not_file c17_upper q /\ not_file c17_lower q /\ Forall (fun n => n <> []) q /\ head q <> Some whiteout_name /\
+     not_file c17_upper q /\
+     (forall f, c17_lower !! q = Some f -> f_type f = File ->
+        is_Some (c17_upper !! whiteout_path (v0, []) q) \/ is_dir c17_upper q) /\
+     Forall (fun n => n <> []) q /\ head q <> Some whiteout_name /\
      (forall f, c17_upper !! whiteout_path (v0, []) q = Some f -> f_type f = File)) /\
   is_Some (c17_upper !! whiteout_path (v0, []) [[97%N]]) /\ is_dir c17_lower [[97%N]].
 Proof.
@@ -140,10 +147,27 @@ Proof.
     { apply elem_of_cons in HP as [-> | HP]; [|apply elem_of_list_singleton in HP as ->];
         cbn in Hq; apply elem_of_cons in Hq as [-> | Hq]; auto; apply elem_of_list_singleton in Hq as ->; auto. }
     destruct Hcases as [-> | [-> | ->]]; (split; [|split; [|split; [|split]]]);
+      try (intros f Hf Hft; vm_compute in Hf; first [discriminate Hf|injection Hf as <-; discriminate Hft]);
       try (intros f Hf; vm_compute in Hf; first [discriminate|injection Hf as <-; reflexivity]);
       try (repeat constructor; discriminate); try (cbn; intros E; discriminate).
   - eexists. vm_compute. reflexivity.
   - eexists. split; [vm_compute; reflexivity|reflexivity].
+Qed.
+
+(** the same with a FILE behind the marker: /a was a file of the lower layer, removed through the overlay; the
+    threads re-create /a/x and /a/y; the stale file never surfaces *)
+Definition c17_lower_f : mstate := <[[[97%N]] := mkMemFile File [104%N] TAuto (Some TAuto) (Some TAuto)]> mem_new.
+Definition c17_run_f :=
+  prun (concat (replicate 40 [0; 1; 1; 0; 0]%nat)) (mstore2 c17_upper c17_lower_f [] [] None)
+       (map (fun P => vp_create_dir_all ovl P) [[[97%N]; [120%N]]; [[97%N]; [121%N]]]).
+Example C17_overlay_hidden_file_example :
+  snd c17_run_f = [Ret (Ok tt); Ret (Ok tt)] /\
+  (forall q f, c17_lower_f !! q = Some f -> f_type f = File -> q = [[97%N]]) /\
+  is_Some (c17_upper !! whiteout_path (v0, []) [[97%N]]).
+Proof.
+  split; [vm_compute; reflexivity|]. split; [|eexists; vm_compute; reflexivity].
+  intros q f Hf Hft. unfold c17_lower_f in Hf. apply lookup_insert_Some in Hf as [[<- _]|[_ Hf]]; [reflexivity|].
+  unfold mem_new in Hf. apply lookup_singleton_Some in Hf as [_ <-]. discriminate Hft.
 Qed.
 
 Print Assumptions C17_all_succeed.
@@ -156,3 +180,4 @@ Print Assumptions C17_overlay_hypotheses.
 Print Assumptions C17_altroot_all_succeed.
 Print Assumptions C17_visible_is_exists.
 Print Assumptions C17_overlay_steps_are_layer_calls.
+Print Assumptions C17_overlay_hidden_file_example.
